@@ -527,6 +527,33 @@ func main() {
 	}
 	// call cones (cones.go): which functions of the library each of these functions can reach
 	cones, cerr := callCones(root)
+	if cones != nil {
+		all := []string{}
+		for n := range cones {
+			all = append(all, q(n))
+		}
+		sort.Strings(all)
+		fmt.Printf("Definition all_functions : list string :=\n  [%s].\n\n", strings.Join(all, "; "))
+		// functions above the modelled ones: not modelled themselves, but they call (directly or not) a function that is
+		isWant := map[string]bool{}
+		for _, w := range want {
+			isWant[w] = true
+		}
+		entry := []string{}
+		for n, c := range cones {
+			if isWant[n] {
+				continue
+			}
+			for _, m := range c {
+				if isWant[m] {
+					entry = append(entry, q(n))
+					break
+				}
+			}
+		}
+		sort.Strings(entry)
+		fmt.Printf("Definition callers_of_modelled : list string :=\n  [%s].\n\n", strings.Join(entry, "; "))
+	}
 	// roots of properties whose models are pure functions compared by T2 (no skeleton): cone only
 	coneRoots := append(append([]string{}, want...), "Task.TempDir", "Task.formatCommand", "applyPathModifiers", "Process.initPortsFromCmdPattern", "Process.initDefaultPathFuncs")
 	for _, name := range coneRoots {
